@@ -905,6 +905,22 @@ impl MT107 {
         });
         let ref_71g_currency = self.field_71g.as_ref().map(|f| &f.currency);
 
+        // 71G of Sequence C must carry the settlement currency as well
+        if let Some(ref_currency) = ref_71g_currency
+            && ref_currency != settlement_currency
+        {
+            errors.push(SwiftValidationError::content_error(
+                "C02",
+                "71G",
+                ref_currency,
+                &format!(
+                    "Currency code in field 71G of Sequence C ({}) must be the same as in field 32B ({})",
+                    ref_currency, settlement_currency
+                ),
+                "The currency code in fields 32B and 71G must be the same for all occurrences in Sequences B and C",
+            ));
+        }
+
         // Check 32B currency consistency in Sequence B
         for (idx, transaction) in self.transactions.iter().enumerate() {
             if &transaction.field_32b.currency != settlement_currency {
